@@ -5,16 +5,16 @@ from c26 import fld
 G2 = ["RX", "RY"]
 Q = [0, 1]
 GATE_CALS = [
-    Tpl("c1f", "DEFCAL {g} {q}:\n\tNOP", g=("str", G2), q=("int", Q)),
-    Tpl("c1v", "DEFCAL {g} v:\n\tNOP", g=("str", G2)),
-    Tpl("c1f-plit1", "DEFCAL {g}(1.0) {q}:\n\tNOP", g=("str", G2), q=("int", Q)),
-    Tpl("c1f-plit2", "DEFCAL {g}(2.0) {q}:\n\tNOP", g=("str", G2), q=("int", Q)),
-    Tpl("c1f-pvar", "DEFCAL {g}(%t) {q}:\n\tNOP", g=("str", G2), q=("int", Q)),
-    Tpl("c1v-pvar", "DEFCAL {g}(%t) v:\n\tNOP", g=("str", G2)),
-    Tpl("c1f-dagger", "DEFCAL DAGGER {g} {q}:\n\tNOP", g=("str", G2), q=("int", Q)),
-    Tpl("c2ff", "DEFCAL {g} {q} {r}:\n\tNOP", g=("str", G2), q=("int", Q), r=("int", Q)),
-    Tpl("c2fv", "DEFCAL {g} {q} w:\n\tNOP", g=("str", G2), q=("int", Q)),
-    Tpl("c2vv", "DEFCAL {g} v w:\n\tNOP", g=("str", G2)),
+    Tpl("c1f", "DEFCAL {g} {q}:\n\tPRAGMA {v}", v=("str", ["va", "vb"]),g=("str", G2), q=("int", Q)),
+    Tpl("c1v", "DEFCAL {g} v:\n\tPRAGMA {v}", v=("str", ["va", "vb"]),g=("str", G2)),
+    Tpl("c1f-plit1", "DEFCAL {g}(1.0) {q}:\n\tPRAGMA {v}", v=("str", ["va", "vb"]),g=("str", G2), q=("int", Q)),
+    Tpl("c1f-plit2", "DEFCAL {g}(2.0) {q}:\n\tPRAGMA {v}", v=("str", ["va", "vb"]),g=("str", G2), q=("int", Q)),
+    Tpl("c1f-pvar", "DEFCAL {g}(%t) {q}:\n\tPRAGMA {v}", v=("str", ["va", "vb"]),g=("str", G2), q=("int", Q)),
+    Tpl("c1v-pvar", "DEFCAL {g}(%t) v:\n\tPRAGMA {v}", v=("str", ["va", "vb"]),g=("str", G2)),
+    Tpl("c1f-dagger", "DEFCAL DAGGER {g} {q}:\n\tPRAGMA {v}", v=("str", ["va", "vb"]),g=("str", G2), q=("int", Q)),
+    Tpl("c2ff", "DEFCAL {g} {q} {r}:\n\tPRAGMA {v}", v=("str", ["va", "vb"]),g=("str", G2), q=("int", Q), r=("int", Q)),
+    Tpl("c2fv", "DEFCAL {g} {q} w:\n\tPRAGMA {v}", v=("str", ["va", "vb"]),g=("str", G2), q=("int", Q)),
+    Tpl("c2vv", "DEFCAL {g} v w:\n\tPRAGMA {v}", v=("str", ["va", "vb"]),g=("str", G2)),
 ]
 GATES = [
     Tpl("g1", "{g} {q}", g=("str", G2), q=("int", Q)),
@@ -26,11 +26,11 @@ GATES = [
     Tpl("g2", "{g} {q} {r}", g=("str", G2), q=("int", Q), r=("int", Q)),
 ]
 MEAS_CALS = [
-    Tpl("m-f-t", "DEFCAL MEASURE {q} addr:\n\tNOP", q=("int", Q)),
-    Tpl("m-v-t", "DEFCAL MEASURE v addr:\n\tNOP"),
-    Tpl("m-f", "DEFCAL MEASURE {q}:\n\tNOP", q=("int", Q)),
-    Tpl("m-v", "DEFCAL MEASURE v:\n\tNOP"),
-    Tpl("m-named-f-t", "DEFCAL MEASURE!mid {q} addr:\n\tNOP", q=("int", Q)),
+    Tpl("m-f-t", "DEFCAL MEASURE {q} addr:\n\tPRAGMA {v}", v=("str", ["va", "vb"]),q=("int", Q)),
+    Tpl("m-v-t", "DEFCAL MEASURE v addr:\n\tPRAGMA {v}", v=("str", ["va", "vb"])),
+    Tpl("m-f", "DEFCAL MEASURE {q}:\n\tPRAGMA {v}", v=("str", ["va", "vb"]),q=("int", Q)),
+    Tpl("m-v", "DEFCAL MEASURE v:\n\tPRAGMA {v}", v=("str", ["va", "vb"])),
+    Tpl("m-named-f-t", "DEFCAL MEASURE!mid {q} addr:\n\tPRAGMA {v}", v=("str", ["va", "vb"]),q=("int", Q)),
 ]
 MEASURES = [
     Tpl("q-t", "MEASURE {q} ro[0]", q=("int", Q)),
@@ -79,6 +79,19 @@ def measure_reference(td, decide, cals, meas, m=None):
     return exact if exact is not None else wild
 
 
+def replace_in_place(td, decide, variant, inputs, m=None):
+    """the calibration set after inserting `inputs` (instruction trees) in order"""
+    out = []
+    for t in inputs:
+        ident = fld(td, t[1][0], variant, "identifier")
+        for i, e in enumerate(out):
+            if decide(tree_eq(fld(td, e[1][0], variant, "identifier"), ident, m)):
+                out[i] = t; break
+        else:
+            out.append(t)
+    return out
+
+
 def oracle(req, decide, td, kind, cals, query, result, m=None):
     """result: ("None", []) or ("Some", [definition tree])"""
     want = (gate_reference if kind == "gate" else measure_reference)(td, decide, cals, query, m)
@@ -117,19 +130,32 @@ class C16(Check):
         k = m.choose([(j, None) for j in range(0, self.K[m.tier] + 1)])
         shapes = [m.choose([(t.name, None) for t in cal_t]) for _ in range(k)]
         qn = m.choose([(t.name, None) for t in q_t])
-        m.ctx = {"kind": kind, "shapes": shapes, "query": qn}
+        # optionally the first definition is redefined (identical signature, another body) after the others
+        redef = k >= 2 and m.choose([(False, None), (True, None)])
+        m.ctx = {"kind": kind, "shapes": shapes, "query": qn, "redef": bool(redef)}
         by = {t.name: t for t in cal_t + q_t}
         prog = m.call_path("Program::new", [])
         cell = [prog]
+        inputs, hv0 = [], None
         for j, s in enumerate(shapes):
             a, hv = instantiate(m, by[s], f"c{j}_")
+            if j == 0: hv0 = hv
+            inputs.append(to_tree(m, a))
+            m.call_path("Program::add_instruction", [Ref(cell, 0), a])
+        if redef:
+            a, hv = instantiate(m, by[shapes[0]], "cr_", shared={h: v for h, v in hv0.items() if h != "v"})
+            inputs.append(to_tree(m, a))
             m.call_path("Program::add_instruction", [Ref(cell, 0), a])
         query, hv = instantiate(m, by[qn], "x_")
         cals_v = cell[0].fields[td.structs["Program"].index("calibrations")]
         field = "calibrations" if kind == "gate" else "measure_calibrations"
         stored = cals_v.fields[td.structs["Calibrations"].index(field)].fields[0].items
         variant = "CalibrationDefinition" if kind == "gate" else "MeasureCalibrationDefinition"
-        cals = [(variant, [to_tree(m, c)]) for c in stored]
+        stored_t = [(variant, [to_tree(m, c)]) for c in stored]
+        # the reference set: definitions in first-insertion order, an identical signature replaces in place
+        cals = replace_in_place(td, m.branch_bool, variant, inputs, m)
+        if m.require("replace-in-place", kind, len(stored_t) == len(cals)):
+            m.require("replace-in-place", kind, and_all(tree_eq(x, y, m) for x, y in zip(stored_t, cals)))
         inner = Ref(query.fields if query.fields is not None else query.alts, 0) if False else Ref([query.fields[0]], 0)
         fn = "Calibrations::get_match_for_gate" if kind == "gate" else "Calibrations::get_match_for_measurement"
         r = m.call_path(fn, [Ref([cals_v], 0), inner])
@@ -149,15 +175,24 @@ class C16(Check):
         cal_t, q_t = (GATE_CALS, GATES) if ctx["kind"] == "gate" else (MEAS_CALS, MEASURES)
         by = {t.name: t for t in cal_t + q_t}
         defs = [by[s].render(hole_values(by[s], f"c{j}_", model)) for j, s in enumerate(ctx["shapes"])]
-        return {"kind_": ctx["kind"], "program": "\n".join(defs), "query": by[ctx["query"]].render(hole_values(by[ctx["query"]], "x_", model)), "kind": kind, "detail": detail}
+        if ctx.get("redef"):
+            t = by[ctx["shapes"][0]]
+            hv = dict(hole_values(t, "c0_", model))
+            hv.update({h: v for h, v in hole_values(t, "cr_", model).items() if h == "v"})
+            defs.append(t.render(hv))
+        return {"kind_": ctx["kind"], "defs": defs, "program": "\n".join(defs), "query": by[ctx["query"]].render(hole_values(by[ctx["query"]], "x_", model)), "kind": kind, "detail": detail}
 
     def native(self, runner, case):
         r = runner.call({"op": "calibration_match", "program": case["program"], "queries": [case["query"]]})
         if "results" not in r: return None, r
         variant = "CalibrationDefinition" if case["kind_"] == "gate" else "MeasureCalibrationDefinition"
-        cals = [parse_debug(x) for x in r["calibrations"] if x.startswith(variant + "(")]
+        stored = [parse_debug(x) for x in r["calibrations"] if x.startswith(variant + "(")]
+        pr = runner.call({"op": "parse_instructions", "texts": case["defs"]})
+        if any("ok" not in x or len(x["ok"]) != 1 for x in pr.get("results", [{}])): return None, pr
+        inputs = [parse_debug(x["ok"][0]) for x in pr["results"]]
+        cals = replace_in_place(self.td, bool, variant, inputs)
         x = r["results"][0]
-        return (cals, parse_debug(x["query"]), parse_debug(x["match"])), r
+        return (cals, parse_debug(x["query"]), parse_debug(x["match"]), stored), r
 
     def confirm(self, runner, case):
         obs, raw = self.native(runner, case)
@@ -165,6 +200,8 @@ class C16(Check):
             if "panic" in raw or "crash" in raw: return True, "panic", f"lookup panics: {raw} on {case}"
             return None, "input", str(raw)[:300]
         col = Collect()
+        if col("replace-in-place", case["kind_"], len(obs[3]) == len(obs[0])):
+            col("replace-in-place", case["kind_"], all(tree_eq(x, y) for x, y in zip(obs[3], obs[0])))
         oracle(col, bool, self.td, case["kind_"], obs[0], obs[1], obs[2])
         if not col.failed: return False, "", "native run satisfies the oracle"
         kind, detail = col.failed[0]
@@ -177,7 +214,7 @@ class C16(Check):
         return None
 
     def canary(self, runner, tier):
-        case = {"kind_": "gate", "program": "DEFCAL RX v:\n\tNOP\nDEFCAL RX 0:\n\tNOP", "query": "RX 0"}
+        case = {"kind_": "gate", "defs": ["DEFCAL RX v:\n\tPRAGMA va", "DEFCAL RX 0:\n\tPRAGMA vb"], "program": "DEFCAL RX v:\n\tPRAGMA va\nDEFCAL RX 0:\n\tPRAGMA vb", "query": "RX 0"}
         obs, raw = self.native(runner, case)
         col = Collect()
         oracle(col, bool, self.td, "gate", obs[0], obs[1], ("Some", [obs[0][0][1][0]]))       # pretend the variable-qubit calibration won
